@@ -98,12 +98,72 @@ pub fn gen(tier: Tier) -> BoxedStrategy<Scenario> {
         .boxed()
 }
 
+/// C07's two-peer drop scenarios with a spectator on the survivor (also dropped together with the
+/// player in half of them): what the host simulates must not depend on the spectator being attached.
+pub fn host_drop_case(i: u64, seed: u64) -> Scenario {
+    let mut sc = if i % 3 == 0 { super::c07::api_case(i / 3, seed) } else { super::c07::death_case((i * 7919) % (super::c07::NBASE * 120), seed, 1, &[0, 2]) };
+    if sc.specs.is_empty() {
+        sc.specs.push(SpecSpec { host: 0, max_behind: 10, catchup: 2, slow: 0, window: sc.max_pred });
+        if i % 2 == 1 {
+            if let Some(t) = sc.ops.iter().find_map(|o| if let Op::Kill { tick, .. } = o { Some(*tick) } else { None }) {
+                sc.ops.push(Op::LinkDown { tick: t, from: crate::sim::types::spec_addr(0), to: crate::sim::types::peer_addr(0) });
+            }
+        }
+    }
+    sc
+}
+
+pub fn eval_host_drops(sc: &Scenario) -> CaseResult {
+    let out = run(sc, &RunOpts::default());
+    let mut r = CaseResult::default();
+    r.classes = base_classes(sc, &out);
+    r.counters = base_counters(&out);
+    r.summary = summary(sc, &out);
+    r.violation = first_violation(&out, &["C06", "C02"]);
+    if r.violation.is_none() {
+        r.violation = spectator_replay(sc, &out);
+    }
+    if r.violation.is_none() {
+        let mut twin = sc.clone();
+        let np = sc.num_players();
+        twin.specs.clear();
+        twin.ops.retain(|o| !matches!(o, Op::LinkDown { from, .. } if *from > 100) && !matches!(o, Op::Disconnect { handle, .. } if *handle as usize >= np));
+        let o2 = run(&twin, &RunOpts::default());
+        if let Some(v) = first_violation(&o2, &["C02"]) {
+            r.violation = Some((format!("C06.twin|{}", v.0), format!("without spectators: {}", v.1)));
+        } else {
+            let (a, b) = (&out.peers[0], &o2.peers[0]);
+            let n = a.timeline.len().min(b.timeline.len());
+            if a.cs != b.cs && a.current_frame == b.current_frame {
+                r.violation = Some(("C06.spectator_changes_players".into(), format!("host connection status {:?} with the spectator attached, {:?} without", a.cs, b.cs)));
+            }
+            for f in 0..n {
+                let va: Vec<(u32, bool)> = a.timeline[f].iter().map(|x| (x.0, x.1 == crate::sim::types::ST_DISC)).collect();
+                let vb: Vec<(u32, bool)> = b.timeline[f].iter().map(|x| (x.0, x.1 == crate::sim::types::ST_DISC)).collect();
+                if va != vb && r.violation.is_none() {
+                    r.violation = Some(("C06.spectator_changes_players".into(), format!("host frame {f}: final inputs {va:?} with the spectator attached, {vb:?} without")));
+                }
+            }
+        }
+    }
+    r.nontrivial = out.peers[0].cs.iter().any(|c| c.0) && out.specs.iter().any(|s| s.timeline.len() > 20);
+    r.classes.push("player_died_on_host_side");
+    if sc.ops.iter().any(|o| matches!(o, Op::LinkDown { from, .. } if *from > 100)) || sc.ops.iter().any(|o| matches!(o, Op::Disconnect { handle, .. } if *handle as usize >= sc.num_players())) {
+        r.classes.push("spectator_dropped_together_with_player");
+    }
+    r
+}
+
 pub fn run_prop(ctx: &Ctx) -> PropReport {
     let mut rep = PropReport::new("C06", "exploration");
     let tier = ctx.tier;
     rep.part(|| run_random(ctx, "spectators",
         "C01 topologies with 1-2 spectators on one or two hosts, spectator tick rates 0.25-1x, spectator pauses up to 3.5 s, max_frames_behind 1..=59, catchup_speed 1..=70, loss/dup/reorder on every link, in a quarter of the two-peer cases the non-host peer dies; oracle: n-th spectator AdvanceFrame == host's final timeline for frame n (values, Disconnected exactly where the host has it), contiguous from 0, never beyond host.confirmed_frame(), per-call step <= 1 unless more than max_frames_behind are buffered and then <= min(catchup_speed, buffered), errors never move current_frame(); metamorphic twin without spectators gives identical confirmed player inputs; non-trivial = spectator fell more than max_frames_behind behind AND its 60-slot ring wrapped",
         || gen(tier), ctx.tier.pick(5000, 20000), eval));
+    let seed = ctx.seed;
+    rep.part(|| run_enum(ctx, "host_drops",
+        "C07's two-peer drop scenarios (moment of death x lost tail, explicit disconnect_player) with a spectator on the survivor, in half of them dropped together with the player (silent from the same instant, or disconnected by the next call): spectator frames == host's final timeline, and the host's final timeline and connection status identical to the twin run without the spectator",
+        ctx.tier.pick(3000u64, 20000u64), move |i| host_drop_case(i, seed), eval_host_drops, false));
     rep.floors.push(("spectators".into(), 0.2));
     rep.assumptions = vec!["spectator sessions are built with the same num_players and (mostly) the same prediction window as their host".into()];
     rep
